@@ -585,6 +585,7 @@ void transmit(queue_t& queue, const lsf_t& lsf)
     CRC16<0x5935, 0xFFFF> crc;
 
     audio_frame_t audio;
+    audio.fill(0);
     size_t index = 0;
     uint16_t frame_number = 0;
     uint8_t lich_segment = 0;
